@@ -121,6 +121,13 @@ type c31Chain struct {
 	queries int
 	plan    []c31Growth
 	log     []string
+	// fault injection: the nth query of one kind fails (and, when persistent,
+	// every later query of that kind too), everything else is answered
+	faultKind       string
+	faultNth        int
+	faultPersistent bool
+	kindCount       map[string]int
+	faulted         bool
 	// what the chain looked like when the single queries were answered
 	grewBetweenConfirmationsAndHeight bool
 	sawConfirmations, sawHeight       bool
@@ -146,6 +153,24 @@ func (c *c31Chain) answered(what string) {
 	}
 }
 
+// failNow says whether the query of the given kind that is being answered
+// must fail (request timed out after retries, server without the data, ...).
+func (c *c31Chain) failNow(kind string) bool {
+	if c.kindCount == nil {
+		c.kindCount = map[string]int{}
+	}
+	c.kindCount[kind]++
+	if kind != c.faultKind {
+		return false
+	}
+	n := c.kindCount[kind]
+	if n == c.faultNth || (c.faultPersistent && n > c.faultNth) {
+		c.faulted = true
+		return true
+	}
+	return false
+}
+
 func (c *c31Chain) find(h Hash) (*c31Block, int) {
 	for _, b := range c.blocks[:c.visible] {
 		for i, id := range b.txids {
@@ -167,6 +192,9 @@ func (c *c31Chain) blockAt(height uint) *c31Block {
 
 func (c *c31Chain) GetTransaction(h Hash) (*Transaction, error) {
 	defer c.answered("tx")
+	if c.failNow("tx") {
+		return nil, fmt.Errorf("request timed out (tx query %d)", c.kindCount["tx"])
+	}
 	if b, i := c.find(h); b != nil {
 		return b.txs[i], nil
 	}
@@ -180,6 +208,9 @@ func (c *c31Chain) GetTransaction(h Hash) (*Transaction, error) {
 
 func (c *c31Chain) GetTransactionConfirmations(h Hash) (uint, error) {
 	defer c.answered("confirmations")
+	if c.failNow("confirmations") {
+		return 0, fmt.Errorf("request timed out (confirmations query %d)", c.kindCount["confirmations"])
+	}
 	c.sawConfirmations = true
 	if b, _ := c.find(h); b != nil {
 		return c.tip().height - b.height + 1, nil
@@ -194,12 +225,18 @@ func (c *c31Chain) GetTransactionConfirmations(h Hash) (uint, error) {
 
 func (c *c31Chain) GetLatestBlockHeight() (uint, error) {
 	defer c.answered("height")
+	if c.failNow("height") {
+		return 0, fmt.Errorf("request timed out (height query %d)", c.kindCount["height"])
+	}
 	c.sawHeight = true
 	return c.tip().height, nil
 }
 
 func (c *c31Chain) GetBlockHeader(height uint) (*BlockHeader, error) {
 	defer c.answered("header")
+	if c.failNow("header") {
+		return nil, fmt.Errorf("request timed out (header query %d)", c.kindCount["header"])
+	}
 	b := c.blockAt(height)
 	if b == nil {
 		return nil, fmt.Errorf("no block at height %d", height)
@@ -212,6 +249,9 @@ func (c *c31Chain) GetBlockHeader(height uint) (*BlockHeader, error) {
 // given height contains the transaction.
 func (c *c31Chain) GetTransactionMerkleProof(h Hash, height uint) (*TransactionMerkleProof, error) {
 	defer c.answered("merkle")
+	if c.failNow("merkle") {
+		return nil, fmt.Errorf("request timed out (merkle query %d)", c.kindCount["merkle"])
+	}
 	b := c.blockAt(height)
 	if b == nil {
 		return nil, fmt.Errorf("no block at height %d", height)
@@ -234,6 +274,9 @@ func (c *c31Chain) GetTransactionMerkleProof(h Hash, height uint) (*TransactionM
 
 func (c *c31Chain) GetCoinbaseTxHash(height uint) (Hash, error) {
 	defer c.answered("coinbase")
+	if c.failNow("coinbase") {
+		return Hash{}, fmt.Errorf("request timed out (coinbase query %d)", c.kindCount["coinbase"])
+	}
 	b := c.blockAt(height)
 	if b == nil {
 		return Hash{}, fmt.Errorf("no block at height %d", height)
@@ -489,14 +532,12 @@ func TestVerif_C31_AssembledProofVerifies(t *testing.T) {
 			confirmations = chain.tip().height - block.height + 1
 		}
 		// required confirmations around what the transaction has
-		required := uint(rapid.OneOf(
+		requiredDrawn := rapid.OneOf(
 			rapid.SampledFrom([]int{int(confirmations), 1, int(confirmations) - 1, 6, int(confirmations) + 1}),
 			rapid.IntRange(1, max(1, int(confirmations))),
 			rapid.IntRange(1, max(1, int(confirmations))),
-		).Draw(t, "required"))
-		if required < 1 {
-			required = 1
-		}
+		).Draw(t, "required")
+		required := uint(max(1, requiredDrawn))
 
 		// growth plan: blocks mined after the j-th answer of the chain
 		nGrow := rapid.SampledFrom([]int{1, 0, 2, 3}).Draw(t, "growthEvents")
@@ -508,6 +549,21 @@ func TestVerif_C31_AssembledProofVerifies(t *testing.T) {
 			chain.plan = append(chain.plan, c31Growth{afterQuery: j, blocks: rapid.IntRange(1, 3).Draw(t, "minedBlocks")})
 		}
 
+		// fault plan: in a third of the cases one query fails while all others
+		// are answered (biased to one of the required header requests)
+		if rapid.IntRange(0, 2).Draw(t, "withFault") == 2 {
+			chain.faultKind = rapid.SampledFrom([]string{"header", "header", "header", "merkle", "tx", "coinbase", "confirmations", "height"}).Draw(t, "faultKind")
+			switch chain.faultKind {
+			case "header":
+				chain.faultNth = rapid.OneOf(rapid.SampledFrom([]int{int(required), 1}), rapid.IntRange(1, int(required))).Draw(t, "faultNth")
+			case "merkle", "tx":
+				chain.faultNth = rapid.IntRange(1, 2).Draw(t, "faultNth")
+			default:
+				chain.faultNth = 1
+			}
+			chain.faultPersistent = rapid.Bool().Draw(t, "faultPersistent")
+		}
+
 		tx, proof, err := AssembleSpvProof(target, required, chain)
 
 		outcome := "error"
@@ -517,16 +573,28 @@ func TestVerif_C31_AssembledProofVerifies(t *testing.T) {
 				t.Fatalf("a proof was assembled for an unconfirmed transaction (required %d)", required)
 			}
 			if verr := c31Verify(target, required, tx, proof, block, pos, chain); verr != nil {
-				t.Fatalf("assembled proof is rejected by the verifier: %v\n tx block height %d (position %d of %d), chain %d..%d at start, required %d, confirmations at start %d, growth plan %v, queries %s",
-					verr, block.height, pos, len(block.txids), chain.blocks[0].height, chain.blocks[0].height+uint(len(chain.blocks)-10-1), required, confirmations, chain.plan, strings.Join(chain.log, ","))
+				t.Fatalf("assembled proof is rejected by the verifier: %v\n tx block height %d (position %d of %d), chain %d..%d at start, required %d, confirmations at start %d, growth plan %v, fault %s#%d (persistent %v, hit %v), queries %s",
+					verr, block.height, pos, len(block.txids), chain.blocks[0].height, chain.blocks[0].height+uint(len(chain.blocks)-10-1), required, confirmations, chain.plan,
+					chain.faultKind, chain.faultNth, chain.faultPersistent, chain.faulted, strings.Join(chain.log, ","))
 			}
 		}
 		early := chain.grewBetweenConfirmationsAndHeight
 		grew := chain.growthSinceConfirmations > 0
 		if err == nil {
 			verified++
-		} else if !grew && !unconfirmed && confirmations >= required {
+		} else if !grew && !unconfirmed && confirmations >= required && !chain.faulted {
 			staticFailures++
+		}
+		fault := "fault:none"
+		if chain.faultKind != "" {
+			fault = "fault:" + chain.faultKind + "-planned-not-reached"
+			if chain.faulted {
+				fault = "fault:" + chain.faultKind
+				if err == nil {
+					// a failed query may never be papered over
+					fault += "/proof"
+				}
+			}
 		}
 		growth := "growth:none"
 		switch {
@@ -560,6 +628,9 @@ func TestVerif_C31_AssembledProofVerifies(t *testing.T) {
 				}
 				return fmt.Sprintf("h%d[%d/%d]", block.height, pos, len(block.txids))
 			}(), required, confirmations, chain.plan, outcome)
-		st.Case(early, desc, growth, enough, shape, "outcome:"+outcome, growth+"/"+enough+"/"+outcome)
+		if chain.faultKind != "" {
+			desc += fmt.Sprintf(" fault=%s#%d/%v", chain.faultKind, chain.faultNth, chain.faultPersistent)
+		}
+		st.Case(early, desc, growth, enough, shape, fault, "outcome:"+outcome, growth+"/"+enough+"/"+outcome)
 	})
 }
